@@ -21,6 +21,17 @@ type Spec struct {
 	Seed   uint64 `json:"seed"`
 	PalN   int    `json:"paln,omitempty"`
 	Wrap   bool   `json:"wrap,omitempty"` // hide the concrete type
+	// StrideExtra: extra bytes at the end of every row of the parent's pixel buffer (single-buffer types only); the
+	// image package allows any stride >= the row's byte length
+	StrideExtra int `json:"stride_extra,omitempty"`
+}
+
+func widen(pix *[]uint8, stride *int, rows, extra int) {
+	if extra <= 0 || rows <= 0 {
+		return
+	}
+	*stride += extra
+	*pix = make([]uint8, *stride*rows)
 }
 
 var Types = []string{"RGBA64", "NRGBA64", "RGBA", "NRGBA", "YCbCr", "NYCbCrA", "Gray", "Gray16", "Alpha", "Alpha16", "CMYK", "Paletted"}
@@ -86,38 +97,47 @@ func Build(s Spec) Built {
 	switch s.Type {
 	case "RGBA64":
 		m := image.NewRGBA64(pr)
+		widen(&m.Pix, &m.Stride, pr.Dy(), s.StrideExtra)
 		f.fill(m.Pix)
 		parent, bufs = m, []*[]byte{&m.Pix}
 	case "NRGBA64":
 		m := image.NewNRGBA64(pr)
+		widen(&m.Pix, &m.Stride, pr.Dy(), s.StrideExtra)
 		f.fill(m.Pix)
 		parent, bufs = m, []*[]byte{&m.Pix}
 	case "RGBA":
 		m := image.NewRGBA(pr)
+		widen(&m.Pix, &m.Stride, pr.Dy(), s.StrideExtra)
 		f.fill(m.Pix)
 		parent, bufs = m, []*[]byte{&m.Pix}
 	case "NRGBA":
 		m := image.NewNRGBA(pr)
+		widen(&m.Pix, &m.Stride, pr.Dy(), s.StrideExtra)
 		f.fill(m.Pix)
 		parent, bufs = m, []*[]byte{&m.Pix}
 	case "Gray":
 		m := image.NewGray(pr)
+		widen(&m.Pix, &m.Stride, pr.Dy(), s.StrideExtra)
 		f.fill(m.Pix)
 		parent, bufs = m, []*[]byte{&m.Pix}
 	case "Gray16":
 		m := image.NewGray16(pr)
+		widen(&m.Pix, &m.Stride, pr.Dy(), s.StrideExtra)
 		f.fill(m.Pix)
 		parent, bufs = m, []*[]byte{&m.Pix}
 	case "Alpha":
 		m := image.NewAlpha(pr)
+		widen(&m.Pix, &m.Stride, pr.Dy(), s.StrideExtra)
 		f.fill(m.Pix)
 		parent, bufs = m, []*[]byte{&m.Pix}
 	case "Alpha16":
 		m := image.NewAlpha16(pr)
+		widen(&m.Pix, &m.Stride, pr.Dy(), s.StrideExtra)
 		f.fill(m.Pix)
 		parent, bufs = m, []*[]byte{&m.Pix}
 	case "CMYK":
 		m := image.NewCMYK(pr)
+		widen(&m.Pix, &m.Stride, pr.Dy(), s.StrideExtra)
 		f.fill(m.Pix)
 		parent, bufs = m, []*[]byte{&m.Pix}
 	case "Paletted":
@@ -127,7 +147,16 @@ func Build(s Spec) Built {
 		}
 		pal := make(color.Palette, n)
 		for i := range pal {
-			switch i % 3 {
+			switch i % 7 {
+			case 3:
+				pal[i] = color.CMYK{f.next(), f.next(), f.next(), f.next()}
+			case 4:
+				pal[i] = color.NYCbCrA{YCbCr: color.YCbCr{Y: f.next(), Cb: f.next(), Cr: f.next()}, A: f.next()}
+			case 5:
+				a := uint16(f.next())<<8 | uint16(f.next())
+				pal[i] = color.NRGBA64{uint16(f.next()) << 8, uint16(f.next())<<8 | 0x80, uint16(f.next()), a}
+			case 6:
+				pal[i] = color.Alpha16{uint16(f.next())<<8 | uint16(f.next())}
 			case 0:
 				pal[i] = color.NRGBA{f.next(), f.next(), f.next(), f.next()}
 			case 1:
@@ -137,6 +166,7 @@ func Build(s Spec) Built {
 			}
 		}
 		m := image.NewPaletted(pr, pal)
+		widen(&m.Pix, &m.Stride, pr.Dy(), s.StrideExtra)
 		f.fill(m.Pix)
 		if n < 256 {
 			for i := range m.Pix {
@@ -221,7 +251,7 @@ func Gen(t *rapid.T, label string, o GenOpts) Spec {
 		s.Ratio = rapid.IntRange(0, len(Ratios)-1).Draw(t, label+"ratio")
 	}
 	if s.Type == "Paletted" {
-		s.PalN = rapid.SampledFrom([]int{1, 2, 3, 16, 255, 256}).Draw(t, label+"paln")
+		s.PalN = rapid.SampledFrom([]int{1, 2, 3, 16, 255, 256, 257, 300, 1000}).Draw(t, label+"paln")
 	}
 	w := rapid.IntRange(0, maxDim).Draw(t, label+"w")
 	if o.TallRows > 0 && rapid.IntRange(0, 7).Draw(t, label+"wide") == 0 {
@@ -265,6 +295,17 @@ func Gen(t *rapid.T, label string, o GenOpts) Spec {
 		x0 = rapid.IntRange(7, 300).Draw(t, label+"x0far")
 	}
 	y0 := rapid.IntRange(lo, 6).Draw(t, label+"y0")
+	if rapid.IntRange(0, 11).Draw(t, label+"far") == 0 {
+		far := rapid.SampledFrom([]int{1 << 20, 1000003, 1<<31 - 700, 1 << 33}).Draw(t, label+"farorigin")
+		if lo < 0 && rapid.Bool().Draw(t, label+"farneg") {
+			far = -far
+		}
+		if rapid.Bool().Draw(t, label+"farx") {
+			x0 += far
+		} else {
+			y0 += far
+		}
+	}
 	s.Rect = [4]int{x0, y0, x0 + w, y0 + h}
 	s.Parent = s.Rect
 	if w > 0 && h > 0 && rapid.Bool().Draw(t, label+"sub") {
@@ -281,6 +322,9 @@ func Gen(t *rapid.T, label string, o GenOpts) Spec {
 			}
 		}
 		s.Parent = [4]int{x0 - ml, y0 - mt, x0 + w + mr, y0 + h + mb}
+	}
+	if !ycc && rapid.IntRange(0, 5).Draw(t, label+"widestride") == 0 {
+		s.StrideExtra = rapid.SampledFrom([]int{1, 2, 3, 4, 5, 8, 13, 64}).Draw(t, label+"strideextra")
 	}
 	fills := []string{"prng", "prng", "prng", "ff", "zero", "ramp"}
 	if o.Orbit {
